@@ -39,7 +39,7 @@ func OverlapDocument(t *rapid.T, acyclic bool) *ref.Doc {
 	case 0:
 		return twinRecursion(t)
 	case 1:
-		return exclusiveThenCommon(t)
+		return exclusiveThenCommon(t, acyclic)
 	case 2:
 		if !acyclic {
 			return exclusiveCycle(t)
@@ -327,7 +327,7 @@ func exclusiveCycle(t *rapid.T) *ref.Doc {
 
 // exclusiveThenCommon: two fragments meet first below same-named fields of two different
 // object types (mutually exclusive parents) and then in one selection set, in either order.
-func exclusiveThenCommon(t *rapid.T) *ref.Doc {
+func exclusiveThenCommon(t *rapid.T, acyclic bool) *ref.Doc {
 	body := func() []*ref.Selection {
 		var out []*ref.Selection
 		for i, n := 0, rapid.IntRange(1, 3).Draw(t, "nb"); i < n; i++ {
@@ -351,7 +351,11 @@ func exclusiveThenCommon(t *rapid.T) *ref.Doc {
 	frags := []*ref.Fragment{a, b}
 	// optionally one or both fragments sit in a fragment cycle (through a third fragment, directly,
 	// or through each other): the comparison must still end
-	switch rapid.IntRange(0, 5).Draw(t, "cycle") {
+	cyc := 5
+	if !acyclic {
+		cyc = rapid.IntRange(0, 5).Draw(t, "cycle")
+	}
+	switch cyc {
 	case 0:
 		a.Sels = append(a.Sels, &ref.Selection{Kind: "Spread", Name: "C"})
 		frags = append(frags, &ref.Fragment{Name: "C", TypeCond: "Person", Sels: append(body(), &ref.Selection{Kind: "Spread", Name: "A"})})
